@@ -175,9 +175,54 @@ def run_case(ctx, which, case):
         except Exception as ex:
             ctx.violation('C01|full-resolve-raises|%s|%s' % (type(ex).__name__, site_of(ex)), case,
                           traceback.format_exc()[-1200:])
+    if which == 'C01' and ctx.evaluations % 3 == 0:
+        check_sectional(ctx, case, spec, order)
     if ctx.evaluations % 97 == 0:
         ctx.sample({'spec': spec, 'order': order, 'shown': [final.title, final.message, final.label],
                     'correct': final.correct, 'score': final.score})
+
+
+def check_sectional(ctx, case, spec, order):
+    """The resolver that platforms with sectioned assignments use (VPL, GradeScope): one result per section, chosen by the same
+    rules among that section's feedback. The feedback of the sections arrives interleaved (whatever is reported before the file is
+    split, or by a check that looks back at an earlier part, belongs to its own group)."""
+    import types
+    from gen import reports
+    from oracles import resolver_model as model
+    from pedal.resolvers import sectional
+    try:
+        report, objs = reports.build(spec, order)
+    except Exception:
+        return
+    groups = [None, 'section-one', 'section-two']
+    n = len(report.feedback)
+    if n < 2:
+        return
+    pattern = [(i * 7 + len(spec['suppressions'])) % 3 if i % 4 else 1 for i in range(n)]      # e.g. 1 1 2 0 1 2 0 1 1 ...: runs are short, groups come back
+    for fb, g in zip(report.feedback, pattern):
+        fb.parent = groups[g]
+    requested = [dict(s_) for s_ in spec['suppressions']]
+    try:
+        finals = sectional.resolve(report)
+    except Exception as ex:
+        ctx.violation('C01|sectional-resolve-raises|%s|%s' % (type(ex).__name__, site_of(ex)), case, traceback.format_exc()[-800:])
+        return
+    ctx.count('sectional_resolves_checked')
+    for gi, g in enumerate(groups):
+        mine = [fb for fb, p in zip(report.feedback, pattern) if p == gi]
+        if not mine:
+            continue
+        if g not in finals:
+            ctx.violation('C01|sectional|section-without-a-result', case, 'no result for %r' % (g,))
+            continue
+        view = types.SimpleNamespace(feedback=mine, ignored_feedback=[], suppressions=report.suppressions, suppressed_labels=report.suppressed_labels)
+        try:
+            problems, e = model.check(view, finals[g], which=('C01',), requested=requested)
+        except model.Unmodelled:
+            continue
+        ctx.count('sections_checked')
+        for prop, key, detail in problems:
+            ctx.violation(key.replace('C01|', 'C01|sectional|', 1), dict(case, section=g, sections=pattern), detail)
 
 
 def run_generated(ctx, which, n):
